@@ -10,6 +10,8 @@ OpsV == {"GoNew", "Sentinel", "CtxDeadline", "Errno", "New", "Newf", "NewfW", "P
          "HandleAsAssertionFailure", "NewAssertionErrorWithWrappedErrf", "WrapWithHTTPCode",
          "WrapWithGrpcCode", "GoWrap", "PkgWithMessage", "PkgWithStack", "PkgWrap", "OsPathError",
          "OsLinkError", "OsSyscallError", "UWrap", "Join", "GoJoin", "GoWrap2", "Hop"}
+\* restricted instance: long chains (twenty and more layers), hops anywhere
+OpsDeep == {"GoNew", "New", "Wrap", "WithStack", "WithHint", "WithDomain", "WithTelemetry", "Handled", "GoWrap", "Hop", "HopU"}
 ShapesV == {<<"w1">>, <<"w1", "SEP", "w2">>, <<"w2", "NL", "w1">>, <<"w2", "PCT">>}
 Shapes2V == {<<"w2">>, <<"w1", "SEP", "w1">>}
 =============================================================================
